@@ -189,7 +189,7 @@ func (w *Walker) EventsOf(fr *Frame) []*Event {
 			if !ok {
 				continue
 			}
-			kind := w.cx.classifyCall(ci)
+			kind := w.cx.classifyCallRaw(ci) // (wrapper calls are entered; the access is an event of the wrapper's frame)
 			if kind == "" && w.Watch != nil {
 				kind = w.Watch(ci)
 			}
@@ -203,6 +203,7 @@ func (w *Walker) EventsOf(fr *Frame) []*Event {
 			}
 			if strings.HasPrefix(kind, "store.") {
 				ev.Prefix = w.cx.storeKeyPrefixOnChain(ci, kind, fr)
+				w.absoluteStoreKey(ev, ci, kind, fr)
 			}
 			ev.InLoop = inLoop(b)
 			out = append(out, ev)
@@ -920,6 +921,58 @@ func (w *Walker) blockFacts0(fr *Frame, b *ssa.BasicBlock, depth int) []FactT {
 // common to all such exits of the callee hold, with its parameters bound.
 func (w *Walker) impliedFacts(fr *Frame, cf CallFact, depth int) []FactT {
 	var out []FactT
+	// firstError(check1, check2, …) returned nil: every check returned nil
+	if cf.Outcome == "err==nil" {
+		if g := cf.Call.Common().StaticCallee(); g != nil && firstErrorCombinator(g) && len(cf.Call.Common().Args) == 1 {
+			for _, el := range variadicElems(cf.Call.Common().Args[0]) {
+				mc := staticClosureOf(el, 0)
+				if mc == nil {
+					continue
+				}
+				fn, _ := mc.Fn.(*ssa.Function)
+				if fn == nil || fn.Blocks == nil || onChain(fr, fn) {
+					continue
+				}
+				cfr := &Frame{Fn: fn, Parent: fr, MC: mc, Depth: fr.Depth + 1}
+				var common map[string]FactT
+				for _, r := range returnsOf(fn) {
+					if isFailureReturn(r) {
+						continue
+					}
+					m := map[string]FactT{}
+					for _, ft := range w.exitFacts(cfr, r.Block(), depth+1) {
+						m[ft.String()] = ft
+					}
+					// `return validateX(p.F)`: the callee's success facts
+					if len(r.Results) == 1 {
+						if rc, ok := r.Results[0].(*ssa.Call); ok {
+							for _, ft := range w.impliedFacts(cfr, CallFact{Call: rc, Outcome: "err==nil"}, depth+1) {
+								m[ft.String()] = ft
+							}
+						}
+					}
+					if common == nil {
+						common = m
+					} else {
+						for k := range common {
+							if _, ok := m[k]; !ok {
+								delete(common, k)
+							}
+						}
+					}
+				}
+				var keys []string
+				for k := range common {
+					keys = append(keys, k)
+				}
+				sort.Strings(keys)
+				for _, k := range keys {
+					out = append(out, common[k])
+				}
+			}
+			return out
+		}
+	}
 	for _, e := range w.cx.calleesOf(cf.Call) {
 		g := e.Callee
 		if g.Blocks == nil || !isIrismodFunc(g) || onChain(fr, g) || w.cx.isDoubleFunc(g) {
@@ -1660,4 +1713,107 @@ func (cx *Ctx) constTable(g *ssa.Global) ([]tableEntry, bool) {
 	}
 	cx.constTables[g] = &out
 	return out, true
+}
+
+// absoluteStoreKey rewrites the key of an access made through a prefix store into the
+// absolute, canonical form (storekey.go). Argument layout after the rewrite is that of
+// the plain forms: Get/Has/Delete(key), Set(key, value), iterator(store, prefix).
+func (w *Walker) absoluteStoreKey(ev *Event, ci ssa.CallInstruction, kind string, fr *Frame) {
+	c := ci.Common()
+	pkg, name := calleeName(c)
+	var store ssa.Value
+	args := ev.Args
+	concrete := false
+	switch {
+	case c.IsInvoke():
+		store = c.Value
+	case pkg == "cosmossdk.io/store/prefix" && strings.HasPrefix(name, "Store."):
+		if len(c.Args) == 0 {
+			return
+		}
+		store = c.Args[0]
+		args = args[1:] // drop the receiver
+		concrete = true
+	case name == "KVStorePrefixIterator" || name == "KVStoreReversePrefixIterator":
+		if len(c.Args) < 2 {
+			return
+		}
+		store = c.Args[0]
+	default:
+		return
+	}
+	pfx := w.storePrefixTerm(store, fr)
+	if pfx == nil {
+		if concrete {
+			ev.Args = args
+		}
+		return
+	}
+	switch kind {
+	case "store.get", "store.has", "store.delete":
+		if len(args) >= 1 {
+			ev.Args = []*Term{w.canonKey(pfx, args[0])}
+		}
+	case "store.set":
+		if len(args) >= 2 {
+			ev.Args = []*Term{w.canonKey(pfx, args[0]), args[1]}
+		}
+	case "store.iter", "store.riter":
+		st := w.ts.Of(store, fr)
+		if name == "KVStorePrefixIterator" || name == "KVStoreReversePrefixIterator" {
+			ev.Args = []*Term{st, w.canonKey(pfx, ev.Args[1])}
+		} else {
+			// Iterator(start, end) over the whole prefix store: the prefix itself
+			var rel *Term
+			if len(args) >= 1 && args[0].Op != "nil" {
+				rel = args[0]
+			}
+			ev.Args = []*Term{st, w.canonKey(pfx, rel)}
+		}
+	}
+}
+
+// firstErrorCombinator: func(checks ...func() error) error that calls the checks in order
+// and returns the first non-nil error (nil when all of them returned nil).
+func firstErrorCombinator(g *ssa.Function) bool {
+	if g == nil || g.Blocks == nil || !isIrismodFunc(g) || len(g.Params) != 1 || !g.Signature.Variadic() || g.Signature.Results().Len() != 1 || !isErrorType(g.Signature.Results().At(0).Type()) {
+		return false
+	}
+	sl, ok := g.Params[0].Type().Underlying().(*types.Slice)
+	if !ok {
+		return false
+	}
+	sig, ok := sl.Elem().Underlying().(*types.Signature)
+	if !ok || sig.Params().Len() != 0 || sig.Results().Len() != 1 || !isErrorType(sig.Results().At(0).Type()) {
+		return false
+	}
+	dyn := 0
+	for _, b := range g.Blocks {
+		for _, ins := range b.Instrs {
+			c, ok := ins.(*ssa.Call)
+			if !ok {
+				continue
+			}
+			if _, isB := c.Common().Value.(*ssa.Builtin); isB {
+				continue
+			}
+			if c.Common().StaticCallee() != nil || c.Common().IsInvoke() {
+				return false
+			}
+			dyn++
+		}
+	}
+	if dyn != 1 {
+		return false
+	}
+	// every return is the error of a check (tested non-nil) or nil
+	for _, r := range returnsOf(g) {
+		if len(r.Results) != 1 {
+			return false
+		}
+		if !isNilConst(r.Results[0]) && !isFailureReturn(r) {
+			return false
+		}
+	}
+	return true
 }
